@@ -428,6 +428,55 @@ static void h_dump_counters (MIR_context_t ctx, FILE *f) {
   }
 }
 
+/* label identity: does every label operand point to the label insn of the same function that
+   carries the same number, and are lref labels label insns of a function of the module? */
+static int h_is_label_of (MIR_func_t fn, MIR_label_t lab) {
+  for (MIR_insn_t insn = DLIST_HEAD (MIR_insn_t, fn->insns); insn != NULL;
+       insn = DLIST_NEXT (MIR_insn_t, insn))
+    if (insn == lab) return 1;
+  return 0;
+}
+static void h_dump_labids (MIR_context_t ctx, FILE *f) {
+  for (MIR_module_t m = DLIST_HEAD (MIR_module_t, *MIR_get_module_list (ctx)); m != NULL;
+       m = DLIST_NEXT (MIR_module_t, m))
+    for (MIR_item_t it = DLIST_HEAD (MIR_item_t, m->items); it != NULL;
+         it = DLIST_NEXT (MIR_item_t, it)) {
+      if (it->item_type == MIR_func_item) {
+        MIR_func_t fn = it->u.func;
+        unsigned long nops = 0, att = 0, dup = 0;
+        for (MIR_insn_t insn = DLIST_HEAD (MIR_insn_t, fn->insns); insn != NULL;
+             insn = DLIST_NEXT (MIR_insn_t, insn)) {
+          if (insn->code == MIR_LABEL) {
+            /* two label insns with the same number must be the same object: count offenders */
+            for (MIR_insn_t j = DLIST_NEXT (MIR_insn_t, insn); j != NULL; j = DLIST_NEXT (MIR_insn_t, j))
+              if (j->code == MIR_LABEL && j != insn && j->ops[0].u.u == insn->ops[0].u.u) dup++;
+            continue;
+          }
+          for (unsigned i = 0; i < insn->nops; i++)
+            if (insn->ops[i].mode == MIR_OP_LABEL) {
+              nops++;
+              if (h_is_label_of (fn, insn->ops[i].u.label)) att++;
+            }
+        }
+        fprintf (f, "func ");
+        h_put_name (f, fn->name);
+        fprintf (f, " ops=%lu attached=%lu dup=%lu\n", nops, att, dup);
+      } else if (it->item_type == MIR_lref_data_item) {
+        int a1 = 0, a2 = -1;
+        for (MIR_item_t it2 = DLIST_HEAD (MIR_item_t, m->items); it2 != NULL;
+             it2 = DLIST_NEXT (MIR_item_t, it2))
+          if (it2->item_type == MIR_func_item) {
+            if (h_is_label_of (it2->u.func, it->u.lref_data->label)) a1 = 1;
+            if (it->u.lref_data->label2 != NULL) {
+              if (a2 < 0) a2 = 0;
+              if (h_is_label_of (it2->u.func, it->u.lref_data->label2)) a2 = 1;
+            }
+          }
+        fprintf (f, "lref attached=%d,%d\n", a1, a2);
+      }
+    }
+}
+
 /* MIR_output, except that expr items are printed here (MIR_output_item falls through into the
    function printer for them: C10's finding, not ours) */
 static void h_output_text (MIR_context_t ctx, FILE *f) {
@@ -500,6 +549,10 @@ static int h_split (char *s, char sep, char **fld, int max) {
   return n;
 }
 
+/* pattern written over the dead stack right before an immediate operand is created (0 = off) */
+static int h_pat = 0;
+static void h_scribble (int pat);
+
 static MIR_op_t h_parse_op (h_bld_t *b, char *s) {
   MIR_context_t ctx = b->ctx;
   MIR_func_t fn = b->func->u.func;
@@ -532,6 +585,7 @@ static MIR_op_t h_parse_op (h_bld_t *b, char *s) {
   case 'L': {
     long double ld;
     h_parse_ld (fld[1], &ld);
+    if (h_pat) h_scribble (h_pat);
     return MIR_new_ldouble_op (ctx, ld);
   }
   case 'R':
@@ -837,6 +891,13 @@ static void h_roundtrip (MIR_context_t a, int exec_p, int load_p, h_call_t *call
 
   h_dump_to (a, &d1, &d1n, h_dump_modules);
   h_print_block ("D1", d1, d1n);
+  {
+    char *l1 = NULL;
+    size_t l1n = 0;
+    h_dump_to (a, &l1, &l1n, h_dump_labids);
+    h_print_block ("L1", l1, l1n);
+    free (l1);
+  }
   h_dump_to (a, &t1, &t1n, h_output_text);
 
   h_jmp_set = 1;
@@ -884,6 +945,13 @@ static void h_roundtrip (MIR_context_t a, int exec_p, int load_p, h_call_t *call
     }
     h_dump_to (b, &c2, &c2n, h_dump_counters);
     h_print_block ("C2", c2, c2n);
+    {
+      char *l2 = NULL;
+      size_t l2n = 0;
+      h_dump_to (b, &l2, &l2n, h_dump_labids);
+      h_print_block ("L2", l2, l2n);
+      free (l2);
+    }
     /* and through the callback API into a third context */
     c = MIR_init ();
     MIR_set_error_func (c, h_error_func);
@@ -1031,7 +1099,7 @@ static void h_run_case (FILE *in, h_words_t *hdr) {
       free (copy);
     }
   }
-  h_scribble (0x11);
+  h_pat = rebuild_p ? 0x11 : 0;
   a = h_build_ctx (lines, nlines, text_path, labelbase, 1);
   if (a != NULL && raw_p) {
     /* reading direction only: raw bytes -> reduce_encode -> MIR_read */
@@ -1065,8 +1133,9 @@ static void h_run_case (FILE *in, h_words_t *hdr) {
         h_scribble (0x11);
         h_write_file (a, &wa);
         h_jmp_set = 0;
-        h_scribble (0xEE);
+        h_pat = 0xEE;
         a2 = h_build_ctx (lines, nlines, text_path, labelbase, 0);
+        h_pat = 0;
         if (a2 != NULL) {
           h_jmp_set = 1;
           h_scribble (0xEE);
